@@ -103,6 +103,11 @@ of_status_t	of_rs_2_m_set_fec_parameters   (of_rs_2_m_cb_t*		ofcb,
 				ofcb->nb_source_symbols, ofcb->max_nb_source_symbols))
 		goto error;
 	}
+	if (params->nb_repair_symbols > 0xFFFFFFFFU - params->nb_source_symbols) {
+		OF_PRINT_ERROR(("ERROR: invalid nb_repair_symbols parameter (got %u), the number of encoding symbols overflows",
+				params->nb_repair_symbols))
+		goto error;
+	}
 	ofcb->nb_source_symbols		= params->nb_source_symbols;
 	ofcb->nb_repair_symbols		= params->nb_repair_symbols;
 	ofcb->encoding_symbol_length	= params->encoding_symbol_length;
